@@ -134,6 +134,26 @@ def judge(ck, module, trace, name=None, timeout=3600):
     return r
 
 
+def pipeline_trace(ck, pool, limit, maxlen=80):
+    """impl -> spec: trace validation of the scanner/parser model on pool texts beyond the exhaustive
+    bounds: every event and the parser/scanner state projection after it, recorded from the real
+    parser, is compared by TLC with one step of the model (Trace_Pipeline). Differences are drift."""
+    out = ck.wd("ptrace.ndjson")
+    s = vh_json(["ptrace", "--pool", pool, "--out", out, "--limit", str(limit), "--maxlen", str(maxlen)])
+    j = judge(ck, "Trace_Pipeline", out, timeout=7200)
+    ck.traces += j.judged
+    ck.extra["pipeline_trace_texts"] = s["texts"]
+    ck.extra["pipeline_trace_records"] = s["records"]
+    if j.rejects:
+        recs = read_ndjson(out)
+        for rej in j.rejects[:50]:
+            k = rej[0] - 1
+            while k >= 0 and recs[k]["k"] != "TEXT":
+                k -= 1
+            ck.note_drift({"text": "".join(recs[k]["t"])[:120] if k >= 0 else "", "record": rej[0], "difference": rej[1]})
+    return s
+
+
 def run_recorder(ck, cmd_args, out, timeout=3600):
     """Run a vh recording command; a crash/timeout of the process is data about the code under
     test (the .cur file names the input being processed)."""
@@ -162,6 +182,7 @@ def c01(ck):
                       "a spin is observed as the WORKCAP/EVENTCAP panic of the counting input wrapper or as a process time-out",
                       "stack exhaustion by deep nesting is owned by C11 (its inputs are not in this pool)"]
     pool = full_pool(ck)
+    pipeline_trace(ck, pool, 3000 if ck.tier == "quick" else 100000, maxlen=80 if ck.tier == "quick" else 200)
     out = ck.wd("c01.ndjson")
     s, crash = run_recorder(ck, ["c01", "--pool", pool, "--out", out], out, timeout=5400)
     if crash:
@@ -200,6 +221,7 @@ def c02(ck):
     ck.extra["pda_states"] = m["states"]
     # (ii)+(iii) scanner+parser model over all small texts, replayed; pool judged by the acceptor
     pool = full_pool(ck)
+    pipeline_trace(ck, pool, 1500 if ck.tier == "quick" else 30000)
     out = ck.wd("c02.ndjson")
     s, crash = run_recorder(ck, ["c02", "--pool", pool, "--out", out], out)
     if crash:
@@ -273,6 +295,25 @@ def selftest():
     if got != [2, 3, 4]:
         print("SELFTEST FAILED: Trace_Events rejected %s, expected [2,3,4]" % got)
         return 2
+    # binding of the trace specification: corrupt one recorded state field / drop one event -> rejected
+    pool = os.path.join(WORK, "selftest", "pool.ndjson")
+    write_ndjson(pool, [{"o": "seed", "t": "a: [b, c]\n- x\n"}, {"o": "seed", "t": "k: |\n  t\n"}])
+    tr = os.path.join(WORK, "selftest", "pt.ndjson")
+    vh_json(["ptrace", "--pool", pool, "--out", tr, "--limit", "2"])
+    recs = read_ndjson(tr)
+    r = tlc("Trace_Pipeline", workers=1, env={"TRACE": tr}, name="selftest_pt0", deque=True)
+    if r.rejects:
+        print("SELFTEST FAILED: Trace_Pipeline rejects an unmodified trace", r.rejects)
+        return 2
+    evs = [i for i, x in enumerate(recs) if x["k"] == "EV"]
+    c1 = json.loads(json.dumps(recs)); c1[evs[3]]["st"]["scanner"]["indent"] += 1
+    c2 = json.loads(json.dumps(recs)); del c2[evs[2]]
+    for name, c in [("field", c1), ("dropped", c2)]:
+        write_ndjson(tr, c)
+        r = tlc("Trace_Pipeline", workers=1, env={"TRACE": tr}, name="selftest_pt_" + name, deque=True)
+        if not r.rejects:
+            print("SELFTEST FAILED: Trace_Pipeline accepts a corrupted trace (%s)" % name)
+            return 2
     for st in SELFTESTS:
         rc = st()
         if rc != 0:
